@@ -1137,6 +1137,54 @@ func breaksDiscipline(p *Program, pkg *packages.Package, change *ssa.Function, r
 		if resets {
 			r.Check(patches, fd.QName()+"#breaks", p.Rel(resetPos), "break jumps collected for this loop are patched to its end",
 				"the function starts a fresh c.breaks list (a loop) but never patches the collected break jumps with changeOperand")
+			// the list of the enclosing loop is put back: every store of a fresh list is followed, on every path to a
+			// successful return, by a store of the list that was read before it
+			for _, b := range sf.Blocks {
+				for _, ins := range b.Instrs {
+					st, ok := ins.(*ssa.Store)
+					if !ok {
+						continue
+					}
+					fa, ok := st.Addr.(*ssa.FieldAddr)
+					if !ok || fieldName(fa) != "breaks" {
+						continue
+					}
+					fresh := false
+					switch v := st.Val.(type) {
+					case *ssa.Const:
+						fresh = v.IsNil()
+					case *ssa.Slice:
+						fresh = true
+					}
+					if !fresh {
+						continue
+					}
+					var restores []*ssa.BasicBlock
+					for _, b2 := range sf.Blocks {
+						for _, i2 := range b2.Instrs {
+							st2, ok := i2.(*ssa.Store)
+							if !ok || st2 == st {
+								continue
+							}
+							fa2, ok := st2.Addr.(*ssa.FieldAddr)
+							if !ok || fieldName(fa2) != "breaks" {
+								continue
+							}
+							if ld, ok := st2.Val.(*ssa.UnOp); ok {
+								if lfa, ok := ld.X.(*ssa.FieldAddr); ok && fieldName(lfa) == "breaks" && instrDominates(ld, st) && (b2 != b || instrDominates(st, st2)) {
+									restores = append(restores, b2)
+								}
+							}
+						}
+					}
+					path := "no store puts the earlier list back"
+					if len(restores) > 0 {
+						path = successPathAvoiding(st.Block(), restores)
+					}
+					r.Check(len(restores) > 0 && path == "", fd.QName()+"#breaks-restored", p.Rel(st.Pos()), "the break list of the enclosing loop is put back when the loop is done",
+						"a fresh c.breaks list is stored and the list that was there before is not put back on every successful path ("+path+"): the `break` statements of an enclosing loop that precede this loop are never patched and jump to the placeholder address")
+				}
+			}
 		}
 	}
 }
